@@ -13,6 +13,7 @@
 #include <cstdlib>
 #include <cstring>
 #include <functional>
+#include <iomanip>
 #include <limits>
 #include <map>
 #include <new>
@@ -840,6 +841,64 @@ template <class T> static void t_padded()
   if (sc <= 3) g_nontrivial++;
 }
 
+
+// ------------------------------------------------------------------------------------------------ streaming under every stream state
+// The streamed text must be exactly "(" + each component streamed TO THAT STREAM + ")" (commas between): whatever format state the
+// stream carries (basefield, floatfield, showbase/showpos/showpoint/uppercase/boolalpha, precision, width + fill + adjustment)
+// applies to the components exactly as it does when they are streamed one by one, and the stream's state after the call is the
+// state left by those scalar insertions (flags / precision / fill unchanged, width reset).
+struct StreamState { const char *name; void (*set)(std::ostream &); };
+static void ss_default(std::ostream &) {}
+static void ss_hex(std::ostream &o) { o << std::hex; }
+static void ss_oct(std::ostream &o) { o << std::oct; }
+static void ss_hexbase(std::ostream &o) { o << std::hex << std::showbase; }
+static void ss_hexupper(std::ostream &o) { o << std::hex << std::uppercase << std::showbase; }
+static void ss_fixed3(std::ostream &o) { o << std::fixed << std::setprecision(3); }
+static void ss_sci2(std::ostream &o) { o << std::scientific << std::setprecision(2); }
+static void ss_sciupper(std::ostream &o) { o << std::scientific << std::uppercase; }
+static void ss_showpos(std::ostream &o) { o << std::showpos; }
+static void ss_showpoint(std::ostream &o) { o << std::showpoint; }
+static void ss_prec12(std::ostream &o) { o << std::setprecision(12); }
+static void ss_boolalpha(std::ostream &o) { o << std::boolalpha; }
+static void ss_width(std::ostream &o) { o << std::setfill('*') << std::setw(8); }
+static void ss_leftwidth(std::ostream &o) { o << std::left << std::setfill('.') << std::setw(6); }
+static void ss_internal(std::ostream &o) { o << std::internal << std::showpos << std::setw(9); }
+static const StreamState STREAM_STATES[] = {
+    {"default", ss_default}, {"hex", ss_hex}, {"oct", ss_oct}, {"hex|showbase", ss_hexbase}, {"hex|uppercase|showbase", ss_hexupper},
+    {"fixed,precision(3)", ss_fixed3}, {"scientific,precision(2)", ss_sci2}, {"scientific|uppercase", ss_sciupper}, {"showpos", ss_showpos},
+    {"showpoint", ss_showpoint}, {"precision(12)", ss_prec12}, {"boolalpha", ss_boolalpha}, {"setfill('*'),setw(8)", ss_width},
+    {"left,setfill('.'),setw(6)", ss_leftwidth}, {"internal|showpos,setw(9)", ss_internal}};
+template <class V> static void t_stream()
+{
+  typedef typename Dim<V>::S T;
+  const int n = Dim<V>::n;
+  COUNT("stream/" + vname<V>());
+  T a[4];
+  fill(a, n, ORD);
+  if (rndint(0, 3) == 0) { a[0] = (T)255; a[1] = (T)4096; if (n > 2) a[2] = (T)48879; }     // values whose hex / oct / fixed spellings differ from the default
+  V v = mkv<V>(a);
+  const int ns = (int)(sizeof(STREAM_STATES) / sizeof(STREAM_STATES[0]));
+  for (int k = 0; k < ns; k++) {
+    std::ostringstream o1, o2;
+    STREAM_STATES[k].set(o1); STREAM_STATES[k].set(o2);
+    auto &&r = (o1 << v);
+    o2 << "(";
+    for (int i = 0; i < n; i++) { if (i) o2 << ","; o2 << a[i]; }
+    o2 << ")";
+    g_checks += 2;
+    if (o1.str() != o2.str())
+      fail("operator<</" + vname<V>() + "/stream-state", std::string("stream state ") + STREAM_STATES[k].name + " a=" + showa(a, n) + " got \"" + o1.str() +
+           "\" want \"" + o2.str() + "\" (the components streamed one by one into an identically configured stream)");
+    bool st = o1.flags() == o2.flags() && o1.precision() == o2.precision() && o1.width() == o2.width() && o1.fill() == o2.fill() &&
+              (const void *)&r == (const void *)static_cast<std::ostream *>(&o1) && o1.good() == o2.good();
+    if (!st)
+      fail("operator<</" + vname<V>() + "/stream-state-after", std::string("stream state ") + STREAM_STATES[k].name + " a=" + showa(a, n) +
+           ": flags/precision/width/fill after the call differ from those after streaming the components (flags " + std::to_string((long)o1.flags()) + " vs " +
+           std::to_string((long)o2.flags()) + ", width " + std::to_string((long)o1.width()) + " vs " + std::to_string((long)o2.width()) + ")");
+  }
+  g_nontrivial++;
+}
+
 // ------------------------------------------------------------------------------------------------ per element type
 template <class T> static void all_for_type(int iters)
 {
@@ -864,6 +923,7 @@ template <class T> static void all_for_type(int iters)
     IntTrig<V2>::run(); IntTrig<V3>::run(); IntTrig<V3A>::run(); IntTrig<V4>::run();
     t_clamp_lerp<V2>(); t_clamp_lerp<V3>(); t_clamp_lerp<V3A>(); t_clamp_lerp<V4>();
     Lerp<V2>::run(); Lerp<V3>::run(); Lerp<V3A>::run(); Lerp<V4>::run();
+    t_stream<V2>(); t_stream<V3>(); t_stream<V3A>(); t_stream<V4>();
     t_padded<T>(); t_padded<T>(); t_padded<T>();
   }
   printf("COV type_%s=%d\n", TN<T>::n(), iters);
